@@ -153,6 +153,127 @@ func init() {
 			st.NOutcomes = len(cells)
 			c.Sample(map[string]interface{}{"scenario": "table", "cell": map[string]interface{}{"accept": "deflate, gzip", "stored": "br only", "rawLen": 17, "min": 16, "type": "text/plain"}})
 		}
+		// the decision depends on nothing else — in particular not on which clients were served before from the same entry
+		if c.Want("table-history") {
+			st := c.Stat("table-history", "enumeration")
+			st.Bounds = "one shared entry per cell (min {16,1024} x raw size min-1/min/min+1/4*min x 7 variant subsets x 3 type cases, compressible body): every ordered pair of the 9 clients served in sequence; the second answer must be the table's, the entry's stored variants unchanged"
+			custom := regexp.MustCompile(`image`)
+			var idx int64
+			for _, min := range []int{16, 1024} {
+				for _, L := range []int{min - 1, min, min + 1, 4 * min} {
+					raw := bytes.Repeat([]byte("ab"), L)[:L]
+					gzb, brb := refEncode("gzip", raw), refEncode("br", raw)
+					for subset := 1; subset < 8; subset++ {
+						for _, tc := range []struct {
+							ct     string
+							filter *regexp.Regexp
+							match  bool
+						}{{"text/plain", nil, true}, {"image/png", custom, true}, {"image/png", nil, false}} {
+							for _, first := range c13Clients {
+								idx++
+								if !c.Mine(idx) {
+									continue
+								}
+								for _, second := range c13Clients {
+									resp := &cache.HTTPResponse{StatusCode: 200, Header: http.Header{"Content-Type": {tc.ct}}, CompressMinLength: min, CompressContentTypeFilter: tc.filter}
+									var lr, lg, lb int
+									if subset&1 != 0 {
+										resp.RawBody, lr = raw, len(raw)
+									}
+									if subset&2 != 0 {
+										resp.GzipBody, lg = gzb, len(gzb)
+									}
+									if subset&4 != 0 {
+										resp.BrBody, lb = brb, len(brb)
+									}
+									before := fmt.Sprint(env.H64(resp.RawBody), env.H64(resp.GzipBody), env.H64(resp.BrBody), len(resp.RawBody), len(resp.GzipBody), len(resp.BrBody))
+									kase := map[string]interface{}{"first": first, "second": second, "min": min, "rawLen": L, "subset(raw=1,gzip=2,br=4)": subset, "type": tc.ct}
+									if _, _, _, _, err := fillVia(resp, first); err != nil {
+										continue // (judged by the table scenario)
+									}
+									enc, body, _, _, err := fillVia(resp, second)
+									st.Execs++
+									if err != nil {
+										c.Violation("table-history", "fill-error", err.Error(), nil, kase, nil)
+										continue
+									}
+									want := refNegotiate(second, lg, lb, lr, lg > 0, lb > 0, min, tc.match)
+									if enc != want {
+										c.Violation("table-history", fmt.Sprintf("encoding-%q-expected-%q-after-another-client", enc, want), fmt.Sprintf("entry (stored raw %d gzip %d br %d, min %d, type %s): after serving client %q, client %q was sent %q; the decision table says %q", lr, lg, lb, min, tc.ct, first, second, enc, want), nil, kase, nil)
+									}
+									if dec, derr := refDecode(enc, body); derr != nil || !bytes.Equal(dec, raw) {
+										c.Violation("table-history", "body-altered", fmt.Sprintf("client %q after %q: decoded body differs (err %v)", second, first, derr), nil, kase, nil)
+									}
+									after := fmt.Sprint(env.H64(resp.RawBody), env.H64(resp.GzipBody), env.H64(resp.BrBody), len(resp.RawBody), len(resp.GzipBody), len(resp.BrBody))
+									if after != before {
+										c.Violation("table-history", "stored-variants-changed-by-serving", fmt.Sprintf("serving %q then %q changed the entry's stored variants (raw/gzip/br sizes %d/%d/%d -> %d/%d/%d)", first, second, lr, lg, lb, len(resp.RawBody), len(resp.GzipBody), len(resp.BrBody)), nil, kase, nil)
+									}
+								}
+							}
+						}
+					}
+				}
+			}
+			st.States, st.Transitions, st.Nontrivial = st.Execs, st.Execs, st.Execs
+			st.NOutcomes = int(st.Execs)
+		}
+		// the table under the server's CURRENT settings: thresholds and filters changed by a reload apply to the next response
+		if c.Want("table-after-reload") && c.Shard == 0 {
+			st := c.Stat("table-after-reload", "enumeration")
+			settings := []struct{ Min, Filter string }{{"1kb", ""}, {"100", "json|image"}, {"3000", "text"}, {"", ""}}
+			st.Bounds = "server compress settings (min length, filter) in {1kb/default, 100/json|image, 3000/text, unset}: every ordered pair applied to a running instance, then uncacheable origin bodies of {500, 2000, 5000} bytes x {text/plain, application/json, image/png} x clients {gzip, br, none} through the handler chain"
+			minOf := map[string]int{"1kb": 1024, "100": 100, "3000": 3000, "": 1024}
+			for i, s1 := range settings {
+				for j, s2 := range settings {
+					if i == j {
+						continue
+					}
+					cfg := env.BasicConfig(config.CacheConfig{})
+					cfg.Servers[0].Addr = "127.0.0.1:0"
+					cfg.Servers[0].CompressMinLength, cfg.Servers[0].CompressContentTypeFilter = s1.Min, s1.Filter
+					e := env.New(cfg)
+					cfg2 := *cfg
+					cfg2.Servers = append([]config.ServerConfig(nil), cfg.Servers...)
+					cfg2.Servers[0].CompressMinLength, cfg2.Servers[0].CompressContentTypeFilter = s2.Min, s2.Filter
+					if err := env.Apply(&cfg2); err != nil {
+						c.Violation("table-after-reload", "reload-failed", err.Error(), nil, nil, nil)
+						continue
+					}
+					e.Rebind()
+					filter := s2.Filter
+					if filter == "" {
+						filter = "text|javascript|json|wasm|xml|font"
+					}
+					re := regexp.MustCompile(filter)
+					for _, L := range []int{500, 2000, 5000} {
+						for _, ct := range []string{"text/plain", "application/json", "image/png"} {
+							for _, ae := range []string{"gzip", "br", ""} {
+								raw := []byte(c20Payload(L))
+								e.Respond = func(oc *env.OriginCall) env.OriginResp {
+									return env.OriginResp{Status: 200, Header: http.Header{"Cache-Control": {"no-cache"}, "Content-Type": {ct}}, Body: raw}
+								}
+								hdr := http.Header{}
+								if ae != "" {
+									hdr.Set("Accept-Encoding", ae)
+								}
+								r := e.Do(env.Req{URI: fmt.Sprintf("/r%d", L), Rid: "r", Header: hdr})
+								e.Events()
+								st.Execs++
+								want := refNegotiate(ae, 0, 0, L, false, false, minOf[s2.Min], re.MatchString(ct))
+								kase := map[string]interface{}{"before": s1, "after": s2, "len": L, "type": ct, "accept": ae}
+								if got := r.Header.Get("Content-Encoding"); r.Status != 200 || got != want {
+									c.Violation("table-after-reload", fmt.Sprintf("encoding-%q-expected-%q-after-reload", got, want), fmt.Sprintf("server settings changed from %v to %v by a reload; a %d-byte %s body for a client accepting %q was sent with Content-Encoding %q (status %d), the table under the current settings says %q", s1, s2, L, ct, ae, got, r.Status, want), nil, kase, nil)
+								}
+							}
+						}
+					}
+					e.Close()
+				}
+			}
+			procEnv, procCfgKey = nil, ""
+			st.States, st.Transitions, st.Nontrivial = st.Execs, st.Execs, st.Execs
+			st.NOutcomes = int(st.Execs)
+		}
 		if c.Want("store-once") && c.Shard == 0 {
 			st := c.Stat("store-once", "enumeration")
 			st.Bounds = "origin encoding {identity,gzip,br} x size {below,above 1024} x type {text,image}: Cacheable then hits for every client"
